@@ -5,7 +5,7 @@ import re
 from lexer import lex, match_close
 from extract import Undecided, norm_sp
 
-RULE_DOC = {}
+RULE_DOC = {'R21': 'a std trait impl (`impl Read/Seek/Write/Drop/Iterator for T`) is emitted as an inherent `impl T` (item directive `as`), associated types `Self::X` substituted from the impl; drops trait dispatch and provided methods'}
 
 
 def rule(name, doc):
@@ -630,7 +630,11 @@ def r5(text, ctx):
     n = 0
     m = re.search(r'\bfn\s+([A-Za-z0-9_]+)', sig)
     name = m.group(1)
-    if name in methods:
+    forced = set()
+    for a in ctx.rule_args.get('R5', []):
+        if a.startswith('force-world '):
+            forced.update(a.split()[1:])
+    if name in methods or name in forced:
         sig2, c = re.subn(r'\(\s*(&(?:\s*mut)?\s*self|self)\s*(,?)', lambda mm: '(%s, world: &mut World%s' % (mm.group(1), ', ' if mm.group(2) else ''), sig, count=1)
         if c == 0:
             raise Undecided('R5: method %s has no self receiver' % name)
@@ -728,3 +732,57 @@ def r29(text, ctx):
     impl = ('\nimpl Clone for %s {\n    #[verifier::external_body]\n    fn clone(&self) -> (r: Self)\n        ensures r == *self\n    { %s { %s } }\n}\n'
             % (name, name, body))
     return text + impl, 1
+
+
+@rule('R20', '`let x = loop { .. break E .. };` -> `let mut verif_slot = None; loop { .. { verif_slot = Some(E); break; } .. } let x = verif_slot.unwrap();` '
+             '(Verus has no break-with-value; the unwrap becomes a proof obligation)')
+def r20(text, ctx):
+    if '\x00' not in text:
+        return text, 0
+    sig, body = text.split('\x00')
+    toks = lex(body)
+    n = 0
+    for i, t in enumerate(toks):
+        if t.kind == 'ident' and t.text == 'let' and i + 4 < len(toks) and toks[i + 2].text == '=' and toks[i + 3].text == 'loop' and toks[i + 4].text == '{':
+            name = toks[i + 1].text
+            lo = i + 4
+            lc = match_close(toks, lo)
+            if toks[lc + 1].text != ';':
+                continue
+            # breaks that belong to this loop: not inside a nested loop
+            edits = []
+            j = lo + 1
+            nested = []
+            while j < lc:
+                x = toks[j]
+                if x.kind == 'ident' and x.text in ('loop', 'while', 'for'):
+                    k = j + 1
+                    while toks[k].text != '{':
+                        k += 1
+                    j = match_close(toks, k) + 1
+                    continue
+                if x.kind == 'ident' and x.text == 'break' and toks[j + 1].text not in (';', '}', ','):
+                    # expression to ',' or ';' or closing '}' at depth 0
+                    k = j + 1
+                    while k < lc:
+                        y = toks[k].text
+                        if y in ('(', '[', '{'):
+                            k = match_close(toks, k)
+                        elif y in (',', ';', '}'):
+                            break
+                        k += 1
+                    expr = body[toks[j + 1].start:toks[k - 1].end]
+                    edits.append((x.start, toks[k - 1].end, '{ verif_slot = Some(%s); break; }' % expr))
+                    j = k
+                    continue
+                j += 1
+            if not edits:
+                continue
+            tys = [a[5:].strip() for a in ctx.rule_args.get('R20', []) if a.startswith('type ')]
+            ann = (': Option<%s>' % tys[0]) if tys else ''
+            edits.append((toks[i].start, toks[lo].start, 'let mut verif_slot%s = None;\n        loop ' % ann))
+            edits.append((toks[lc + 1].start, toks[lc + 1].end, '\n        let %s = verif_slot.unwrap();' % name))
+            body = toks_replace(body, edits)
+            n += 1
+            break
+    return sig + '\x00' + body, n
